@@ -70,5 +70,52 @@ def r18_3(ctx):
 r18_3.rule_id = "R18.3"
 
 
-RULES = [r18_1, r18_2, r18_3]
-FLOORS = {"R18.1": 100, "R18.2": 6, "R18.3": 8}
+def r18_4(ctx):
+    """necessary condition of 'no key twice / strictly increasing traversal' at quiescent points: list searches advance only past strictly smaller keys
+    (shared with C13 R13.8)"""
+    from . import C13
+    saved = None
+    n0 = ctx.counts.get("R13.8", 0)
+    # re-use the C13 rule under this property's rule id
+    class _Proxy(object):
+        def __init__(self, c):
+            self.__dict__["c"] = c
+        def __getattr__(self, k):
+            return getattr(self.c, k)
+        def check(self, ok, rid, *a, **kw):
+            return self.c.check(ok, "R18.4", *a, **kw)
+        def bad(self, rid, *a, **kw):
+            return self.c.bad("R18.4", *a, **kw)
+        def ok(self, rid, *a, **kw):
+            return self.c.ok("R18.4", *a, **kw)
+    C13.r13_8(_Proxy(ctx))
+r18_4.rule_id = "R18.4"
+
+
+def r18_5(ctx):
+    """Bronson map: the consistency checker this property refers to computes subtree heights - the height of a node is one more than the larger
+    child height; a recursion that hands the child height up unchanged makes every height 0 and the AVL balance test vacuous"""
+    from sa.q import sv_affine
+    n = 0
+    for F in ctx.db.find(q="cds::container::BronsonAVLTreeMap::do_check_consistency"):
+        for p in PathSim(F, bound=2000).run():
+            if p.outcome != "return" or p.ret is None:
+                continue
+            rec = [e for e in p.events if e.kind == "call" and e.q and e.q.endswith("::do_check_consistency")]
+            if not rec:
+                continue           # the null-node base case
+            n += 1
+            a = sv_affine(p.ret)
+            vals = set(e.val for e in rec)
+            child = [k for k in a if k in vals]
+            ok = len(child) == 1 and a.get(child[0]) == 1 and a.get(1, 0) == 1 and len([k for k in a if k != 1]) == 1
+            ctx.check(ok, "R18.5", F, "the consistency checker returns (larger child height) + 1 for a non-null node", None,
+                      detail="returns %r: with no increment every subtree height is 0 and |hLeft - hRight| > 1 can never be observed - check_consistency() "
+                      "accepts unbalanced trees (C18: 'BronsonAVLTreeMap satisfies its consistency check: AVL balance')" % (p.ret,), sig="height-no-increment")
+    if n < 2:
+        ctx.broken("BronsonAVLTreeMap::do_check_consistency return paths not found (%d)" % n)
+r18_5.rule_id = "R18.5"
+
+
+RULES = [r18_1, r18_2, r18_3, r18_4, r18_5]
+FLOORS = {"R18.1": 100, "R18.2": 6, "R18.3": 8, "R18.4": 4, "R18.5": 2}
